@@ -763,3 +763,6 @@ Definition eval_flag (fl : jval -> bool) (c : condition) (req stored : ctx) : bo
                            | Some v => conv_flag fl (snd p) (as_interface v)
                            | None => false end) (c_params c)
   end.
+
+(* number of entries of a context (keeps [nat] among the extracted datatypes) *)
+Definition ctx_size (m : ctx) : nat := length m.
